@@ -37,7 +37,6 @@ package harcollector
 //@   on entry do gJSONCalled = false
 //@   ensures[disabled-or-empty-untouched] !o.obfuscateEnabled || body == "" ==> result == body && !gJSONCalled
 //@   ensures[whole-body-with-own-exclusions] o.obfuscateEnabled && body != "" ==> gJSONCalled && gJSONBody == body && bodyExclOK(o, bodyExclusionsPrefix, gJSONExcl)
-//@   ensures[never-verbatim-on-failure] o.obfuscateEnabled && body != "" && err != nil ==> result == o.obfuscator.ObfuscateString(body)
 //@   ensures[the-obfuscated-document] o.obfuscateEnabled && body != "" && err == nil ==> result == obfuscatedBody
 
 //@ func (*apiStreamObfuscator).ObfuscateRequestBody
